@@ -33,6 +33,45 @@ TRUSTED = {
 }
 
 
+_TREE_KEY = None
+
+
+def tree_key():
+    """content hash of everything a unit's verdict depends on: the repository sources under
+    verification and the verifier itself (engine, contracts, specification, lemmas)"""
+    global _TREE_KEY
+    if _TREE_KEY is None:
+        h = hashlib.sha256()
+        from pyvc.source import sources
+
+        repo = sources().repo
+        files = []
+        for root in (os.path.join(repo, "cvss"),):
+            for dp, dn, fn in os.walk(root):
+                for f in sorted(fn):
+                    if f.endswith(".py"):
+                        files.append(os.path.join(dp, f))
+        for sub in ("pyvc", "contracts", "spec", "lemmas"):
+            for dp, dn, fn in os.walk(os.path.join(VERIF, sub)):
+                for f in sorted(fn):
+                    if f.endswith((".py", ".json")):
+                        files.append(os.path.join(dp, f))
+        for f in sorted(files):
+            h.update(f.encode())
+            with open(f, "rb") as fh:
+                h.update(fh.read())
+        _TREE_KEY = h.hexdigest()
+    return _TREE_KEY
+
+
+CACHE_DIR = os.path.join(VERIF, ".cache", "units")
+
+
+def cache_path(job):
+    k = hashlib.sha256((tree_key() + json.dumps(job[:4], sort_keys=True, default=str)).encode()).hexdigest()
+    return os.path.join(CACHE_DIR, k[:2], k + ".json")
+
+
 def _alarm(signum, frame):
     raise TimeoutError("unit wall-clock limit")
 
@@ -41,7 +80,24 @@ def run_unit(job):
     """worker: verify one (contract, case) unit or one lemma; returns a JSON-able dict"""
     kind, modname, key, case, limit = job
     t0 = time.time()
+    use_cache = os.environ.get("PYVC_NO_CACHE") != "1"
+    cp = cache_path(job) if use_cache else None
+    if cp and os.path.exists(cp):
+        try:
+            with open(cp) as f:
+                out = json.load(f)
+            out["cached"] = True
+            out["wall"] = time.time() - t0
+            return out
+        except Exception:  # noqa
+            pass
     try:
+        import resource
+
+        try:
+            resource.setrlimit(resource.RLIMIT_AS, (10 * 2 ** 30, 10 * 2 ** 30))
+        except Exception:  # noqa
+            pass
         signal.signal(signal.SIGALRM, _alarm)
         signal.alarm(int(limit) + 30)
         import importlib
@@ -60,6 +116,15 @@ def run_unit(job):
             out = run_lemma(key, fn, case).to_json()
         signal.alarm(0)
         out["wall"] = time.time() - t0
+        if cp and not out.get("crash") and not any("time budget" in u[0] or "checker error" in u[0] for u in out.get("undecided", [])):
+            try:
+                os.makedirs(os.path.dirname(cp), exist_ok=True)
+                tmp = cp + ".%d.tmp" % os.getpid()
+                with open(tmp, "w") as f:
+                    json.dump(out, f, default=str)
+                os.replace(tmp, cp)
+            except Exception:  # noqa
+                pass
         return out
     except BaseException as e:  # noqa
         signal.alarm(0)
@@ -311,6 +376,7 @@ def check(prop, tier="quick", seed=0, procs=None, verbose=False):
             "samples": samples,
             "functions_under_contract": functions,
             "units": len(results),
+            "units_reused_from_content_addressed_cache": sum(1 for r in results if r.get("cached")),
             "paths": sum(r["paths"] for r in results),
             "backends": backends,
             "solver_checks": sum(r.get("solver_checks", 0) for r in results),
